@@ -6,6 +6,7 @@ import (
 	"context"
 	"errors"
 	"net"
+	"sync"
 	"time"
 
 	spb "google.golang.org/genproto/googleapis/rpc/status"
@@ -351,4 +352,18 @@ func vstubProtoClone(m proto.Message) proto.Message {
 		return &ordering.Metadata{MessageID: x.MessageID, Method: x.Method, Status: x.Status}
 	}
 	panic("verif: proto.Clone of unsupported message type")
+}
+
+// sync.Map.Range: iterates over a snapshot taken in one atomic transition (one of the
+// behaviours the documentation allows: every key is visited at most once; entries stored or
+// deleted concurrently may or may not be seen).
+//
+//verif:stub (*sync.Map).Range?
+func vstubSyncMapRange(m *sync.Map, f func(key, value interface{}) bool) {
+	snap := vSyncMapSnapshot(m)
+	for i := 0; i+1 < len(snap); i += 2 {
+		if !f(snap[i], snap[i+1]) {
+			break
+		}
+	}
 }
